@@ -22,13 +22,13 @@ def generate(d):
 use std::sync::Arc;
 use std::sync::atomic::{AtomicU64, Ordering};
 use std::time::{Duration, SystemTime, UNIX_EPOCH};
-use shimmap::BTreeMap;
+use shimmap::direct::BTreeMap;
 type PartitionId = u16;
 macro_rules! info { ($($t:tt)*) => {{}}; }
 // ---- verbatim from crates/sierradb-cluster/src/confirmation.rs
 """ + items + "\n// ---- harness\n" + h
     gen.write_crate(d, "c08-confirmation", 'shimmap = { path = "%s" }' % gen.mock("shimmap"), lib)
-    rewrites.append("slice: UnconfirmedEventInfo, PartitionConfirmationState (+impl), AtomicWatermark (+impl) verbatim; std BTreeMap -> array-backed shimmap::BTreeMap (capacity 6); "
+    rewrites.append("slice: UnconfirmedEventInfo, PartitionConfirmationState (+impl), AtomicWatermark (+impl) verbatim; std BTreeMap<u64,_> -> direct-indexed shimmap::direct::BTreeMap (slot = key, keys < 8); "
                     "tracing::info! -> empty; stub SystemTime::now -> arbitrary instant")
     return {"rewrites": rewrites, "harness_file": None}
 
@@ -43,6 +43,8 @@ def native_replay(rp, workroot):
         return replay_bin("c08", ["stale"], crate="replay-cluster")
     if "add with overflow" in descs:
         return replay_bin("c08", ["attempts"], crate="replay-cluster")
+    if rp["harness"].startswith("c08_history") or rp["harness"] == "c08_inductive_step":
+        return replay_bin("c08", ["search"], crate="replay-cluster")
     return None, "no native reproducer for this obligation"
 
 
@@ -58,6 +60,6 @@ def spec(tier, seed):
     hs.append(Harness("c08_vacuity_witness", expect_fail=True, obligation="twin", timeout_s=300))
     u = Unit("c08", generate, hs, kani_flags=("-Z", "stubbing"), jobs=4, workers=2, playback=False)
     return PropSpec("C08", [u], native_replay=native_replay,
-                    assumptions=["std BTreeMap replaced by an array-backed map with the same API subset (capacity 6 >= versions in play)", "the clock returns an instant at or after the epoch"],
+                    assumptions=["std BTreeMap<u64,_> replaced by a direct-indexed map with the same API subset (keys < 8 >= versions in play)", "the clock returns an instant at or after the epoch"],
                     outside_claim=["persistence: temp-file/rename sequence of persist_bucket_state and initialize()/load_bucket_state (tokio::fs, crash points)", "admin_skip_event", "more than the stated number of updates / versions"],
                     trusted_base=["kani-compiler 0.68 / CBMC 6.11 / cadical", "the slicer", "mocks/shimmap"])
